@@ -183,6 +183,7 @@ inline void enumerate(const World &w, const Opts &o, std::vector<Op> &out) {
     add(SHRINK);
     for (int n = 0; n <= (kFixed ? (kFixedThrow && o.overlimit ? N + 1 : N) : w.L + 1); ++n) add(RESERVE, n);
     add(SELF_COPY_ASSIGN); add(SELF_MOVE_ASSIGN); add(SELF_SWAP); add(MOVE_CTOR_SELF); add(COPY_CTOR_SELF);
+    add(MOVE_CTOR_SELF, 1); add(COPY_CTOR_SELF, 1);  // allocator-extended forms V(V&&, alloc), V(const V&, alloc)
 #if __cplusplus >= 202002L
     for (int s = 0; s < sz; ++s) { add(ERASE_VAL, s); add(ERASE_IF_GT, s); }
 #endif
